@@ -445,6 +445,17 @@ func genVE(g *genCtx) {
 			g.op("add %s %s", genErr(r), genErr(r))
 		}
 	}
+	// fan-out: one error whose message list for a field grew one message at a time is merged into several others, each of
+	// which then gets a message of its own for that field (appended: the cases above keep their PRNG streams)
+	nFan := 40
+	if !g.quick() {
+		nFan = int(2000 * g.scale)
+	}
+	for t := 0; t < nFan; t++ {
+		g.newCase("kind=fan")
+		r := g.rng
+		g.op("fan f=%s k=%d n=%d w=%d", encStr(fieldsA[r.intn(len(fieldsA))]), r.rangeIn(1, 9), r.rangeIn(2, 4), r.intn(2))
+	}
 }
 
 // ---- execution ----
@@ -487,6 +498,30 @@ func execVE(x *execCtx) {
 					}
 					return strings.Join(names, ",")
 				}
+			case "fan":
+				f := fields(toks[1:])
+				fld, k, n, w := decStr(f["f"]), atoi(f["k"]), atoi(f["n"]), f["w"] == "1"
+				common := verrs.NewValidationError(fld, "m0", w)
+				for i := 1; i < k; i++ {
+					common = verrs.AddErrorToValidation(common, verrs.NewValidationError(fld, fmt.Sprintf("m%d", i), w))
+				}
+				rs := make([]*verrs.ValidationError, n)
+				for j := range rs {
+					tf := "o"
+					if j%2 == 1 {
+						tf = fld // this one has a message for the field already
+					}
+					rs[j] = verrs.AddErrorToValidation(verrs.NewValidationError(tf, fmt.Sprintf("o%d", j), false), common)
+				}
+				for j := range rs {
+					rs[j] = verrs.AddErrorToValidation(rs[j], verrs.NewValidationError(fld, fmt.Sprintf("own%d", j), w))
+				}
+				parts := []string{}
+				for j, rj := range rs {
+					parts = append(parts, fmt.Sprintf("r%dE=%s r%dW=%s", j, canonMap(rj.GetFlatErrorMap()), j, canonMap(rj.GetFlatWarningMap())))
+				}
+				parts = append(parts, fmt.Sprintf("cE=%s cW=%s", canonMap(common.GetFlatErrorMap()), canonMap(common.GetFlatWarningMap())))
+				return strings.Join(parts, " ")
 			case "add":
 				e1, e2 := parseErr(toks[1]), parseErr(toks[2])
 				res := verrs.AddErrorToValidation(e1, e2)
